@@ -209,6 +209,78 @@ def c06_live(rep, rnd, thorough):
         cert.remove()
 
 
+def fetch_late(port, request, late, timeout=60):
+    """Like fetch(), but after the first bytes of the answer have arrived the client sends `late` (bytes after the request
+    line, in a later read than the request), waits 0.3 s, and reads on to the end."""
+    raw = socket.create_connection(("127.0.0.1", port), timeout=timeout)
+    try:
+        s = client_ctx().wrap_socket(raw, server_hostname="localhost")
+        s.sendall(request)
+        out = bytearray()
+        sent = False
+        while True:
+            try:
+                d = s.recv(65536)
+            except ssl.SSLZeroReturnError:
+                break
+            except (ConnectionResetError, ssl.SSLError, BrokenPipeError) as e:
+                return bytes(out), "error:%s" % type(e).__name__
+            if not d:
+                break
+            out += d
+            if not sent:
+                sent = True
+                if late:
+                    try:
+                        s.sendall(late)
+                    except (ConnectionResetError, ssl.SSLError, BrokenPipeError):
+                        pass
+                time.sleep(0.3)
+        return bytes(out), "eof"
+    finally:
+        try:
+            raw.close()
+        except Exception:
+            pass
+
+
+def c07_live(rep, rnd, thorough):
+    """TrailingIgnored end to end: bytes that follow a Gemini request line never change the outcome - also when they arrive in
+    a later read, while a large response is still on its way.  (ServerConn decides this for what the protocol object
+    answers; what reaches the client also depends on what the transports do with a connection that was closed while
+    megabytes are queued - only real sockets show that.)"""
+    cert = CertFiles("ec", "localhost")
+    bodies = {}
+
+    def handler(req):
+        return shaped(20, "application/octet-stream", bodies[req.path.strip("/")])
+
+    servers = {bk: LiveServer(bk, handler, cert) for bk in ("stdlib", "pyopenssl")}
+    n = 0
+    try:
+        plan = {"pyopenssl": [100, 3000000], "stdlib": [100, 30000000]}
+        for bk, srv in servers.items():
+            for size in plan[bk]:
+                key = "b%d" % size
+                bodies[key] = body_for(size, "bytes", rnd)
+                want = b"20 application/octet-stream\r\n" + bodies[key]
+                for late in ([b"", b"x", b"\r\n"] if thorough else [b"", b"x"]):
+                    data, end = fetch_late(srv.port, b"gemini://localhost/%s\r\n" % key.encode(), late)
+                    n += 1
+                    if data != want or end != "eof":
+                        sig = {"formula": "TrailingIgnored", "live": True, "backend": bk, "late": "after-first-bytes" if late else "none",
+                               "size": "large" if size > 100000 else "small"}
+                        rep.violation(sig, "live %s backend, body of %d bytes, %r sent after the first bytes of the answer: received %d of %d bytes, end=%s"
+                                      % (bk, size, late, len(data), len(want), end), None)
+                del bodies[key]
+        rep.add("live_fetches", n)
+        rep.add("traces_validated_against_impl", n)
+    finally:
+        for s_ in servers.values():
+            s_.stop()
+        cert.remove()
+
+
 def started_server_idle_reader(rep, cert, formula="ByteExact", long_idle=False):
     """The servers the REAL start_server builds (both backends), a static file larger than the kernel's socket buffers,
     and a reader that idles for a few seconds after the header: every byte must still arrive."""
@@ -452,6 +524,8 @@ def main(pid, rep=None, finish=True):
             c06_live(rep, rnd, thorough)
         elif pid == "C15":
             c15_live(rep, rnd, thorough)
+        elif pid == "C07":
+            c07_live(rep, rnd, thorough)
         elif pid == "C20":
             from checks import c20
             c20.live(rep, rnd, thorough)
